@@ -96,7 +96,11 @@ def run(ck):
                             guards.append(b)
                             break
             gtxt = [g.term.get("cond") for g in guards]
-            ok = ok and all("c:Pistache::PollableQueue::isBound" in [strip_tmpl(r) for r in (g.term.get("refs") or [])] for g in guards)
+            # each guarding block may only evaluate isBound(): use the references of the leaf the block really tests
+            def only_bound(g):
+                lr = [strip_tmpl(r) for r in (g.term.get("leafrefs") or g.term.get("refs") or [])]
+                return "c:Pistache::PollableQueue::isBound" in lr and not [r for r in lr if r.startswith("v:") and r != "v:this"]
+            ok = ok and all(only_bound(g) for g in guards)
             # the push must not itself be conditional
             ok = ok and qp[0].block in dom[f.exit] if f.exit in dom else ok
             detail = "Queue::push@%s dominates write(event_fd)@%s; write guarded by %s" % (qp[0].get("l"), wr[0].get("l"), gtxt)
